@@ -399,6 +399,10 @@ func RollCoC(src *rand.PCGSource, isBonus bool, diceNum IntType, mode int) (IntT
 
 	for i := IntType(0); i < diceNum; i++ {
 		n := Roll(src, 10, mode)
+		if mode == -1 && !isBonus {
+			// 下界模式: 惩罚骰取十位中的最大值，十位骰的最小贡献是 "0"(即10面骰的10)，而不是 1
+			n = 10
+		}
 
 		if n == 10 {
 			num10Exists = true
